@@ -521,7 +521,7 @@ def plan_c11(run_seed):
     ops = []
     live = []  # (pool id, text index, is_result)
     nid = 0
-    nops = t.randint(4, 20)
+    nops = t.randint(4, 30 if os.environ.get("VERIF_TIER_ACTIVE") == "thorough" else 20)
     for _ in range(nops):
         if not live or (t.chance(0.15) and len(live) < 6):
             ti = t.randrange(ntexts)
@@ -928,7 +928,7 @@ def plan_c16(run_seed):
             e2["pulses"]["relative"] = False
             texts.append(e2)
     ops = []
-    nops = t.randint(4, 16)
+    nops = t.randint(4, 24 if os.environ.get("VERIF_TIER_ACTIVE") == "thorough" else 16)
     p_bad = t.choice([0.3, 0.5, 0.7])
     p_interrupt = t.choice([0.0, 0.15, 0.3])
     p_nested = t.choice([0.0, 0.3])
